@@ -351,8 +351,13 @@ impl<'de> Deserializer<'de> {
     }
     #[inline]
     fn read_leb_u64(&mut self) -> Result<u64> {
-        self.try_read_leb_u64()?
-            .ok_or_else(|| Error::msg("LEB128 overflow"))
+        if let Some(value) = self.try_read_leb_u64()? {
+            return Ok(value);
+        }
+        // Ten bytes: either a value of 2^63 or more, or a padded encoding of a
+        // smaller one. The fast path left the position untouched; read it the
+        // way the header parser reads its lengths.
+        leb128::read::unsigned(&mut self.input).map_err(|_| Error::msg("LEB128 overflow"))
     }
     /// Returns `Ok(None)` on overflow (value may not fit in u64), `Err` on I/O error (e.g. EOF).
     /// This lets callers fall through to a bignum path on overflow without swallowing real errors.
